@@ -4,3 +4,4 @@
 -/
 import Msmart.Props.C07Session
 import Msmart.Props.C07Code
+import Msmart.Props.C07Finding
